@@ -279,6 +279,44 @@ def exact_case(name, window, draw_ids, res, tmpdir):
     res.outcomes[f"exact:{wclass}"] += 1
 
 
+def frames_case(name, w1, w2, keep, res, tmpdir):
+    """two frames on ONE renderer (how videos are made): frame 1 with window w1 is drawn and rendered, then frame 2 with window w2 is drawn;
+    the obstacle shapes buffered for frame 2 must be exactly the model at w2 (nothing left over from frame 1)"""
+    import collections
+    plt = mpl_setup()
+    from commonroad.visualization.mp_renderer import MPRenderer
+    global _FIG
+    if _FIG is None:
+        _FIG = plt.figure(figsize=(4, 3))
+    case = {"k": "frames", "scenario": name, "w1": list(w1), "w2": list(w2), "keep_static_artists": keep}
+    res.evals += 1; res.transitions += 2; res.nontrivial += 1
+    sc, pps = build(name, tmpdir)
+    _FIG.clf()
+    try:
+        rnd = MPRenderer(ax=_FIG.add_subplot(111))
+        sc.draw(rnd, set_params(exact_settings() + [([], "time_begin", w1[0]), ([], "time_end", w1[1])]))
+        rnd.render(keep_static_artists=keep)
+        p2 = set_params(exact_settings() + [([], "time_begin", w2[0]), ([], "time_end", w2[1])])
+        for o in sc.obstacles:
+            o.draw(rnd, p2)
+        patches = list(rnd.obstacle_patches)
+        rnd.render(keep_static_artists=keep)
+    except Exception as e:
+        res.violation(f"C19|two-frames|keep_static_artists={keep}|raises:{type(e).__name__}", f"{case}: {e!r}", case)
+        return
+    finally:
+        _FIG.clf()
+    got = collections.Counter(patch_key(x) for x in patches)
+    req, opt = expected_patches(sc, w2)
+    req, opt = collections.Counter(req), collections.Counter(opt)
+    missing, extra = req - got, got - req - opt
+    if missing:
+        res.violation(f"C19|two-frames|keep_static_artists={keep}|second-frame:missing-patch", f"{case}: {sum(missing.values())} occupancies of the second frame are not drawn", case)
+    if extra:
+        res.violation(f"C19|two-frames|keep_static_artists={keep}|second-frame:extra-patch", f"{case}: {sum(extra.values())} shapes drawn that the model does not report at the second frame's time", case)
+    res.outcomes["two-frames"] += 1
+
+
 # ------------------------------------------------------------------------------------ (c) propagation
 
 def declaring(root, path, field):
@@ -437,6 +475,9 @@ def run_unit(unit, tier):
             for w in WINDOWS:
                 for ids in ("None", "[]", "[one]", "[all]"):
                     exact_case(unit["scenario"], w, ids, res, d)
+            for w1, w2 in ((WINDOWS[1], WINDOWS[2]), (WINDOWS[2], WINDOWS[1]), (WINDOWS[1], WINDOWS[5]), (WINDOWS[3], WINDOWS[4])):
+                for keep in (False, True):
+                    frames_case(unit["scenario"], w1, w2, keep, res, d)
             res.states += 1
             res.sample({"k": "exact", "scenario": unit["scenario"]}, 1)
         else:
@@ -456,6 +497,8 @@ def replay(case):
         total_case(case["scenario"], [(a, b, c) for a, b, c in case["settings"]], tuple(case["window"]), res, d, "replay")
     elif k == "exact":
         exact_case(case["scenario"], tuple(case["window"]), case["draw_ids"], res, d)
+    elif k == "frames":
+        frames_case(case["scenario"], tuple(case["w1"]), tuple(case["w2"]), case["keep_static_artists"], res, d)
     elif k == "propagation":
         propagation(res, 0, 1)
     else:
